@@ -2,7 +2,7 @@
 functions over enumerated / seeded domains and log raw records; TLC evaluates every record
 against the TLA+ reference specifications (Trace_Codec.tla)."""
 import json, os, re, subprocess, time, concurrent.futures as cf
-import vlib
+import vlib, lookupgen
 
 PLAN = {
     # pid: (go test, theorem configs of MC_Codec (quick, thorough))
@@ -116,6 +116,14 @@ def check(pid, tier):
         env = vlib.goenv()
         env.update(VERIF_TIER=tier, VERIF_SEED=str(vlib.seed()))
         jobs = [(PLAN[pid].get('pkg', './codec/'), PLAN[pid]['test'])] + PLAN[pid].get('extra', [])
+        table_info = None
+        if PLAN[pid].get('lookup'):
+            # replay table enumerated by TLC from Lookup.tla (every arrival script within the bounds and the results allowed for it)
+            tpath, nrows, total, tstates0 = lookupgen.write(w, tier, vlib.seed())
+            env['VERIF_TABLE'] = tpath
+            jobs.append((PLAN[pid]['pkg'], 'TestC20Table'))
+            table_info = dict(scripts_replayed=nrows, scripts_in_table=total, lookup_gen_states=tstates0,
+                              rule='quick: seeded sample of the table for Timeout 3 / 2 arrivals; thorough: the complete table for Timeout 3 / 3 arrivals')
         bins = {}
         with open(recfile, 'w') as allrec:
             for k, (pkg, test) in enumerate(jobs):
@@ -142,6 +150,10 @@ def check(pid, tier):
             states2, trans2 = run_sock_model(w)
             states, trans = states + states2, trans + trans2
         bad, nrec, tstates = judge_records(w, recfile, pid)
+        if table_info is not None:
+            tr = [json.loads(l) for l in open(recfile) if '"table":1' in l]
+            table_info['records'] = len(tr)
+            table_info['judged_strictly'] = sum(1 for r in tr if r['late'] <= r['tol'] and r['elapsed'] <= r['timeout'] + r['tol'])
         race_note = None
         if pid == 'C19' and tier == 'thorough':
             # the concurrency clause under the race detector (the schedules come from 16 goroutines x 400 operations)
@@ -193,7 +205,7 @@ def check(pid, tier):
                    rule='one evaluation = one input/output record of the real codec (distinct inputs by construction of the enumeration) '
                         'evaluated by TLC against the TLA+ reference specification',
                    reference_theorems=thm, known_findings={k: len(v) for k, v in kf.items()},
-                   exhaustive=(pid in ('C11', 'C18')), real_sockets=bool(PLAN[pid].get('sock') or PLAN[pid].get('lookup') or PLAN[pid].get('extra')))
+                   exhaustive=(pid in ('C11', 'C18')), real_sockets=bool(PLAN[pid].get('sock') or PLAN[pid].get('lookup') or PLAN[pid].get('extra')), lookup_table=table_info)
         vlib.write_evidence(pid, tier, 'model_checking', cov, ASSUME.get(pid, []), time.time() - t0, len(viol))
         print('%s %s: %d records of the real codec evaluated by TLC; %s' % (pid, tier, nrec, 'VIOLATIONS' if viol else 'held'))
         return rc
